@@ -7,6 +7,9 @@ Mirrors /repo (Cargo.toml + src/) into /verif/target/repo_va, the copy the harne
 
     std::sync::atomic::*   core::sync::atomic::*   ->  ::vatomic::*
     std::sync::Mutex                               ->  ::vatomic::Mutex
+    std::time::Instant                             ->  ::vatomic::time::Instant   (a virtual clock: every reading advances it by a
+                                                       step the case decides - 0 ns or 1 s - so that wall-clock dependent
+                                                       branches of the library are enumerated, not left to the machine's speed)
 
 (direct paths and `use std::sync::{atomic::{..}, Mutex, ..}` groups). Nothing else is changed; files are only
 written when their content changes, so cargo rebuilds exactly what /repo's working tree changed. The pinned
@@ -72,8 +75,25 @@ def rewrite_groups(text):
     return res
 
 
+def rewrite_time_groups(text):
+    # use std::time::{Duration, Instant};  ->  Instant from vatomic::time (a clock the harness decides), the rest from std
+    def repl(m):
+        vis = m.group(1) or ''
+        items = [x.strip() for x in m.group(2).split(',') if x.strip()]
+        keep = [x for x in items if x != 'Instant']
+        out = ''
+        if keep:
+            out += '%suse std::time::{%s};' % (vis, ', '.join(keep))
+        if 'Instant' in items:
+            out += ' %suse ::vatomic::time::Instant;' % vis
+        return out
+    return re.sub(r'(pub(?:\([a-z:]+\))?\s+)?use\s+(?:::)?std::time::\{([^{}]*)\}\s*;', repl, text)
+
+
 def rewrite(text):
     text = rewrite_groups(text)
+    text = rewrite_time_groups(text)
+    text = re.sub(r'(?<![A-Za-z0-9_:])(?:::)?std::time::Instant\b', '::vatomic::time::Instant', text)
     text = re.sub(r'\buse\s+(?:::)?(?:std|core)::sync::atomic\s*;', 'use ::vatomic as atomic;', text)
     text = re.sub(r'(?<![A-Za-z0-9_:])(?:::)?(?:std|core)::sync::atomic\b', '::vatomic', text)
     text = re.sub(r'(?<![A-Za-z0-9_:])(?:::)?std::sync::Mutex\b', '::vatomic::Mutex', text)
